@@ -14,10 +14,10 @@ import ast
 
 from ..cfg import cfg_of
 from ..core import META, Ctx, RuleResult, rule
-from ..model import AnalysisError, Func, norm_stmt, parent
+from ..model import AnalysisError, Func, dotted, norm_stmt, parent
 from ..pattern import C, G, V, add, call, match, mul, neg, norm
 from ..terms import Term, alts, contains, ends_with_attrs, phi, root_of, show, subterms
-from ..util import calls_in, nodes_in
+from ..util import calls_in, deep_subterms, nodes_in
 
 P = "C10"
 BT = "ropt.enums.BoundaryType"
@@ -274,13 +274,14 @@ def c10_3(ctx: Ctx) -> RuleResult:
             for mg, sm in cand:
                 if ends_with_attrs(mg, "gradient", "perturbation_magnitudes"):
                     mag_ok = True
-                    samp_ok = contains(sm, lambda s: s[0] == "call" and s[1][0] == "attr" and s[1][2] == "generate_samples")
+                    samp_ok = any(s_[0] == "call" and s_[1][0] == "attr" and s_[1][2] == "generate_samples" for _h, s_ in deep_subterms(ctx, g, sm, 3))
         res.add(g, c, "the value handed to the bound handler is variables + config.gradient.perturbation_magnitudes * <sampler output>", bool(ok and mag_ok and samp_ok),
                 "" if ok and mag_ok and samp_ok else f"perturbed value is `{show(t[2][0], 110) if t[2] else '?'}`", construct=f"{g.name}: perturbation formula")
         roles = len(a) == 4 and ends_with_attrs(a[1], "variables", "lower_bounds") and ends_with_attrs(a[2], "variables", "upper_bounds") and ends_with_attrs(a[3], "gradient", "boundary_types")
         res.add(g, c, "bounds and boundary types are passed in their roles (lower, upper, types)", roles, "" if roles else f"arguments `{[show(x, 40) for x in a[1:]]}`", construct=f"{g.name}: handler arguments")
         # samples of several samplers are summed
-        augs = [n for n in nodes_in(g, ast.AugAssign) if isinstance(n.op, ast.Add) and "generate_samples" in ast.unparse(n.value)]
+        augs = [n for h_ in [g] + [x for x in ctx.cg.reachable([g], include_nested_values=False) if x.module is g.module and x.cls is None and x.name.startswith("_")]
+                for n in nodes_in(h_, ast.AugAssign) if isinstance(n.op, ast.Add) and "generate_samples" in ast.unparse(n.value)]
         res.add(g, c, "contributions of several samplers are added", bool(augs), "" if augs else "sampler outputs are not summed", construct=f"{g.name}: sum of samplers")
     res.floor = 3
     return res
@@ -291,10 +292,15 @@ def c10_4(ctx: Ctx) -> RuleResult:
     res = RuleResult("C10.4", "TERM", "relative magnitudes are scaled by (upper - lower) only where the type is RELATIVE, after checking those bounds are finite")
     X = ctx.X
     gc = ctx.repo.cls("ropt.config.enopt._gradient_config.GradientConfig")
+    # the scaling may live in a method of GradientConfig or in a private function of its module that the methods call
+    cands = list(gc.methods.values())
+    for g_ in ctx.cg.reachable(list(gc.methods.values()), include_nested_values=False):
+        if g_.module is gc.module and g_.cls is None and g_.name.startswith("_") and g_ not in cands:
+            cands.append(g_)
     f = None
-    for m in gc.methods.values():
+    for m in cands:
         if any(s == ("global", "ropt.enums.PerturbationType.RELATIVE") for s in subterms(X.return_term(m))) or "RELATIVE" in ast.unparse(m.node):
-            if "magnitudes" in ast.unparse(m.node):
+            if any(isinstance(n_, ast.Call) and dotted(n_.func) in ("np.where", "numpy.where") for n_ in ast.walk(m.node)):
                 f = m
     if f is None:
         raise AnalysisError("relative-magnitude scaling not found in GradientConfig")
@@ -333,7 +339,8 @@ def c10_4(ctx: Ctx) -> RuleResult:
             why = "the non-relative branch does not keep the magnitude unchanged"
             continue
         # the fraction that is scaled is the configured magnitude itself
-        if not (contains(mm["m"], lambda s: s[0] == "attr" and s[2] == "perturbation_magnitudes") and not contains(mm["m"], lambda s: s[0] == "call" and s[1][0] == "attr" and s[1][2].endswith("_to_optimizer"))):
+        m_src = [y for _h, y in deep_subterms(ctx, f, mm["m"], 3)]
+        if not (any(y[0] == "attr" and y[2] == "perturbation_magnitudes" for y in m_src) and not any(y[0] == "call" and y[1][0] == "attr" and y[1][2].endswith("_to_optimizer") for y in m_src)):
             why = f"the fraction of the bound range is `{show(mm['m'], 80)}`, not the configured perturbation_magnitudes (it was transformed before the range scaling)"
             continue
         ok, why = True, ""
